@@ -123,7 +123,8 @@ class BaseJob(ABC, Generic[T]):
             for timer in self.__timers:
                 if (timer.datetime - ref_dt).total_seconds() <= 0:
                     timer.calc_next_exec(ref_dt)
-        else:
+        elif self.__delay or self.__attempts != 1:
+            # without delay the first execution consumed `start`, not the pending timer
             self.__pending_timer.calc_next_exec(ref_dt)
         self.__pending_timer = get_pending_timer(self.__timers)
         if self.__stop is not None and self.__pending_timer.datetime > self.__stop:
